@@ -200,6 +200,9 @@ pub open spec fn opt_skip(o: Option<&Opts>) -> bool { match o { Some(x) => x.ski
 		res is Ok ==> (res->Ok_0.hash is Some) == opt_hash(opts) /*[C11.hash_iff_requested]*/,
 //@before let hash
 	let ghost r0 = r.rest();
+//@before "Cannot skip to game end
+	// C10: the skip is refused only when the declared raw element has no room for a Game End event after what was read
+	proof { assert(raw_len == 0 || raw_len - state.bytes_read < 1 + payload_size(&state, 0x39u8)) /*[C10.skip_refused_only_without_room]*/; }
 //@afterblock if#1
 	proof {
 		// C10: with skip-frames the reader resumes exactly one Game End event before the declared end of the raw element, with no frame rows
